@@ -140,6 +140,7 @@ func TestScriptKind(t *testing.T) {
 		`<script type=" MODULE">`:                   "module",
 		`<script type="application/ld+json">`:       "json",
 		`<script type="application/json">`:          "data",
+		`<script type="importmap">`:                 "json",
 		`<script type="text/template">`:             "data",
 		`<script type="text/javascript;charset=x">`: "data",
 		`<script language="javascript">`:            "js",
